@@ -15,7 +15,7 @@ import tempfile
 PID = "C28"
 LEVEL = "exploration"
 TECHNIQUE = "sys.addaudithook('open') monitor + path-containment oracle over an exhaustive name space; resolution model for composed loaders"
-RULE = ("names: every sequence of 1..4 segments over {'..','.','','a','b.txt','a\\\\b','C:','\\\\\\\\x','é',"
+RULE = ("names: every sequence of 1..4 (thorough: 1..5) segments over {'..','.','','a','b.txt','a\\\\b','C:','\\\\\\\\x','é',"
         "'..a','a..',' '} joined by '/', x optional leading '/' x optional trailing '/', plus the "
         "absolute paths of all sentinel files (plain, '//'-prefixed, '.'-prefixed); each name is given to "
         "FileSystemLoader(abs dir), FileSystemLoader([relative dir, PathLike dir]), "
@@ -199,19 +199,25 @@ def loader_configs(sb, quick):
 
 
 # ------------------------------------------------------------ name space
-def all_names(sb):
+def all_names(sb, maxseg=4):
     n = 0
-    for k in range(1, 5):
+    for k in range(1, maxseg + 1):
+        if k == 5:      # sentinel paths between the <=4 and the 5-segment names
+            for p in sb.sentinels:
+                for name in (p, "/" + p, "./" + p, p.lstrip("/"), "a/" + p, "//" + p + "/"):
+                    n += 1
+                    yield n, name
         for segs in itertools.product(FRAGS, repeat=k):
             body = "/".join(segs)
             for lead in ("", "/"):
                 for trail in ("", "/"):
                     n += 1
                     yield n, lead + body + trail
-    for p in sb.sentinels:
-        for name in (p, "/" + p, "./" + p, p.lstrip("/"), "a/" + p, "//" + p + "/"):
-            n += 1
-            yield n, name
+    if maxseg < 5:
+        for p in sb.sentinels:
+            for name in (p, "/" + p, "./" + p, p.lstrip("/"), "a/" + p, "//" + p + "/"):
+                n += 1
+                yield n, name
 
 
 def natural(pieces, roots):
@@ -302,7 +308,8 @@ def part_names(ctx, sb, quick):
     envs = {label: Environment(loader=ld, cache_size=0) for label, ld, _ in cfgs}
     seen = set()
     sampled = 0
-    for n, name in all_names(sb):
+    n_dist = 4 * sum(len(FRAGS) ** k for k in range(1, 5)) + 6 * len(sb.sentinels)
+    for n, name in all_names(sb, 4 if quick else 5):
         if not ctx.mine(n):
             continue
         if name in seen:
@@ -315,7 +322,10 @@ def part_names(ctx, sb, quick):
             found = check_name(ctx, sb, mon, envs[label], label, loader, roots, name, probe)
             if found and not probe:
                 check_name(ctx, sb, mon, envs[label], label, loader, roots, name, True)
-            ctx.dist((name, label))
+            if n <= n_dist or quick:
+                ctx.dist((name, label))
+            else:
+                ctx.count("pairs_5_segments")
         if sampled < 3 and ctx.shard == 0 and ".." in name and "b.txt" in name:
             sampled += 1
             ctx.sample({"part": "names", "loader": "fs:abs", "name": name})
